@@ -901,6 +901,16 @@ class C11Protocol:
             with fetch_active_workspace(ex.ws, mode="r") as w:
                 obs["mode_inside"] = w.geoh5.mode
                 _ = [c.name for c in w.root.children]
+        elif mode == "save_as":
+            # Workspace.save_as closes, copies the bytes to disk and re-opens there; then close
+            import os
+
+            path = world.scratch() / f"c11-saveas-{os.getpid()}.geoh5"
+            if path.exists():
+                path.unlink()
+            ex.ws.save_as(path)
+            obs["saved_as"] = str(path)
+            ex.ws.close()
         elif mode in ("fetch_r+_from_r_raise", "fetch_r_from_closed_raise"):
             # the helper opened the workspace itself and an exception escapes ITS block
             ex.ws.close()
@@ -925,7 +935,11 @@ class C11Protocol:
         except Exception as err:  # pylint: disable=broad-except
             obs["geoh5_after_close"] = type(err).__name__
         obs["probes"] = [[str(e.uid), type(e).__name__, _probe(e)] for e in probes]
-        b1 = ex.ws.h5file.getvalue()
+        if obs.get("saved_as"):
+            with open(obs["saved_as"], "rb") as fh:
+                b1 = fh.read()
+        else:
+            b1 = ex.ws.h5file.getvalue()
         b2 = ex.ws2.h5file.getvalue() if ex.ws2 is not None else None
         ex.closed_bytes.append((len(ex.results), b1, b2))
         obs["bytes"], obs["bytes2"] = b1, b2
@@ -947,6 +961,13 @@ class C11Protocol:
             obs["same_object_reopen"] = None
             obs["same_object_error"] = type(err).__name__
         obs["handles_left_final"] = _h5_count() - (g_before - f_before)
+        if obs.get("saved_as"):
+            import os
+
+            try:
+                os.unlink(obs["saved_as"])
+            except OSError:
+                pass
         return obs
 
 
